@@ -79,6 +79,12 @@ def default_programs(ctx, rng, th, name="mcdef", kinds=None):
     return progs
 
 
+def related_programs(rng, th, kinds=None):
+    """histories in which an operation's arguments derive from the previous operation's (duplicate, next id, the range
+    that continues the previous range, a near miss of that): schema.related_programs"""
+    return schema.related_programs(rng, kinds, reps=3 if th else 1)
+
+
 def random_programs(rng, kinds, n, nops, maxcalls=4, defaults=False):
     progs = []
     for i in range(n):
